@@ -6,6 +6,14 @@ verus! {
 //@ include prelude/core.rs
 //@ include prelude/std_specs.rs
 //@ include prelude/sliceiter.rs
+//@ extract src/bigint.rs :: enum Sign attrs=1
+#[derive(/*+*/Structural, /*-*/PartialEq, PartialOrd, Eq, Ord, Copy, Clone, Debug, Hash)]
+pub enum Sign {
+    Minus,
+    NoSign,
+    Plus,
+}
+//@ end
 pub mod u {
 use super::*;
 
@@ -369,6 +377,56 @@ impl BigUint {
             decreases self.data@.len() - v__@.len()
 //+}
         { match it__.next() { Some(x__) => v__.push(x__), None => break, } } v__ }
+    }
+//@ end
+}
+
+//@ extract src/bigint.rs :: struct BigInt
+pub struct BigInt {
+    sign: Sign,
+    data: BigUint,
+}
+//@ end
+//@ include prelude/bigint_view.rs
+
+impl BigInt {
+//@ extract src/bigint.rs :: impl BigInt :: fn to_u32_digits props=C09 label=BigInt_to_u32_digits
+    pub fn to_u32_digits(&self) -> /*+*/(r: /*-*/(Sign, Vec<u32>)/*+*/)/*-*/
+//+{
+        ensures r.0 == self.sg(), r.1@ =~= digits32(self.mag().dg())
+//+}
+    {
+        (self.sign, self.data.to_u32_digits())
+    }
+//@ end
+
+//@ extract src/bigint.rs :: impl BigInt :: fn to_u64_digits props=C09 label=BigInt_to_u64_digits
+    pub fn to_u64_digits(&self) -> /*+*/(r: /*-*/(Sign, Vec<u64>)/*+*/)/*-*/
+//+{
+        ensures r.0 == self.sg(), r.1@ =~= self.mag().dg()
+//+}
+    {
+        (self.sign, self.data.to_u64_digits())
+    }
+//@ end
+
+//@ extract src/bigint.rs :: impl BigInt :: fn iter_u32_digits props=C09 label=BigInt_iter_u32_digits
+    pub fn iter_u32_digits(&self) -> /*+*/(r: /*-*/U32Digits<'_>/*+*/)/*-*/
+//+{
+        ensures r.inv(), r.view() == digits32(self.mag().dg())
+//+}
+    {
+        self.data.iter_u32_digits()
+    }
+//@ end
+
+//@ extract src/bigint.rs :: impl BigInt :: fn iter_u64_digits props=C09 label=BigInt_iter_u64_digits
+    pub fn iter_u64_digits(&self) -> /*+*/(r: /*-*/U64Digits<'_>/*+*/)/*-*/
+//+{
+        ensures r.view() == self.mag().dg()
+//+}
+    {
+        self.data.iter_u64_digits()
     }
 //@ end
 }
